@@ -128,7 +128,10 @@ R_SCOPES["r_bnodes"] = {
         (B("x"), AP, B("_:b1")),
     ],
     "presets": [(8, 0, 0), (8, 1, 0), (8, 2, 0), (4000, 150, 32)],
-    "gnames": [DEFAULT, B("_:g"), B("g"), B("_g"), I("http://a/g"), B("_:b1")],
+    # (graph names: a blank node whose label is the text of an IRI graph name in the same
+    #  dataset, and one whose label is the text of rdflib's default-graph identifier)
+    "gnames": [DEFAULT, B("_:g"), B("http://a/g"), B("urn:x-rdflib:default"), I("http://a/g"),
+               B("_:b1")],
 }
 GNAMES = [DEFAULT, I("http://a/x"), I("http://a/x"), B("x"), DEFAULT, I("http://b#x")]
 FRAME_SIZES = (1, 250)
@@ -196,7 +199,7 @@ def expected_cases(js: list) -> int:
     tot = 0
     for _, kind, scope, cls, pi, L, lo, hi in js:
         if kind == "S":
-            tot += 3
+            tot += 4 if scope == "mega" else 3
         elif kind == "A":
             tot += (hi - lo) * (len(FRAME_SIZES) * len(MODES) + (1 if cls != "triple" else 0) + 1)
         elif kind == "C":
@@ -219,7 +222,8 @@ def run_scale(job, judge) -> dict:
     acc = pool.Acc()
     preset = RT.SCALE_PRESETS[pi]
     seq = RT.scale_seq(kind, 3 if cls == "triple" else 4)
-    for fs, lk, dl in ((250, "flat", True), (127, "flat", True), (250, "flat", False)):
+    for fs, lk, dl in ((250, "flat", True), (127, "flat", True), (250, "flat", False)) + (
+            ((1, "flat", True),) if kind == "mega" else ()):
         acc.evals += 1
         if not all(AL.fits(st, preset) for st in seq):
             acc.counters["out_of_domain"] += 1
